@@ -99,6 +99,21 @@ def gen(ctx, rng, n):
             deg = rng.choice([4, 5])
             f = {"k": "poly", "c": [c11.cz(rng.uniform(-2, 2) * max(1.0, abs(a), abs(b)) ** (-k), 0.0) for k in range(deg + 1)], "p": []}
             cx = False
+        if routine in ("legendre", "tanhsinh") + tuple(WEIGHTED) and rng.random() < 0.12:
+            # an integrand that vanishes at the node of the one-point rule (interval midpoint; 1 for Laguerre; 0 for the
+            # others): the first area is exactly 0 = the initial "previous area", which must not count as an agreement
+            x1 = 0.5 * (a + b) if routine in INTERVAL else (1.0 if routine == "laguerre" else 0.0)
+            m = rng.choice([1, 2, 2])
+            q = [rng.uniform(0.5, 2) * rng.choice([-1, 1]), rng.uniform(-1, 1) / max(1.0, abs(a), abs(b))]
+            base = [1.0]
+            for _ in range(m):
+                base = [(base[k - 1] if k > 0 else 0.0) - x1 * (base[k] if k < len(base) else 0.0) for k in range(len(base) + 1)]
+            co = [0.0] * (len(base) + 1)
+            for i2, bv in enumerate(base):
+                co[i2] += bv * q[0]
+                co[i2 + 1] += bv * q[1]
+            f = {"k": "poly", "c": [c11.cz(v, (0.5 * v) if cx else 0.0) for v in co], "p": []}
+            must = True
         if f["k"] in ("cis", "mix"):
             cx = True
         mode = rng.random()
@@ -116,6 +131,21 @@ def gen(ctx, rng, n):
         if routine == "simpson" and rng.random() < 0.1:
             cases[-1]["n"] = rng.choice([2, 3, 5])         # shallow depth limits: the depth error path
             cases[-1]["mustok"] = False
+    # tanh-sinh on several periods of a sine or on an asymmetric power: the coarse levels are far off and only the
+    # level-to-level convergence heuristic decides when to stop (cheap runs, many of them)
+    for k in range(n):
+        a = rng.uniform(-5, 1)
+        b = a + rng.uniform(0.5, 4.0)
+        tol = 10.0 ** (-rng.uniform(3, 7))
+        if k % 4 == 3:
+            deg = rng.randint(5, 9)
+            a, b = rng.uniform(-1.0, 0.0), rng.uniform(0.3, 1.0)
+            f = {"k": "poly", "c": [c11.cz(0.0)] * deg + [c11.cz(rng.uniform(1, 3) * rng.choice([-1, 1]))], "p": []}
+        else:
+            w = rng.uniform(6.0, 25.0) / (b - a)
+            f = {"k": "sin", "c": [c11.cz(0.0)], "p": [fp(rng.uniform(0.5, 2)), fp(w), fp(rng.uniform(0, 6.28))]}
+        cases.append({"routine": "tanhsinh", "cx": False, "a": fp(a), "b": fp(b), "tol": fp(tol), "n": 40, "budget": 2000000, "keep": 64,
+                      "f": f, "mustok": True, "work": False})
     return cases
 
 
